@@ -716,19 +716,28 @@ def save_replay(prop, n, replay):
     return path
 
 
-def script_segment(script, line):
-    """the operations from the last reset before `line` up to `line` (1-based)"""
+def script_segments(script, lines):
+    """for each wanted line (1-based): the operations from the last reset before it up to it;
+    one pass over the script, JSON-decoding only what is returned"""
+    want = set(lines)
+    last = max(want) if want else 0
+    out = {}
     seg = []
     with open(script) as fh:
         for i, raw in enumerate(fh, 1):
-            if i > line:
+            if i > last:
                 break
-            o = json.loads(raw)
-            if o.get("reset"):
+            if raw.startswith('{"reset"'):
                 seg = []
             else:
-                seg.append(o)
-    return seg
+                seg.append(raw)
+            if i in want:
+                out[i] = [json.loads(x) for x in seg]
+    return out
+
+
+def script_segment(script, line):
+    return script_segments(script, [line]).get(line, [])
 
 
 # --------------------------------------------------------------------------- per-property decision
@@ -776,9 +785,17 @@ def collect_core(prop, tier, fnd, cov):
                          "keyform": c["keyform"]})
             continue
         executed += c["summary"]["executed"]
+        mine = []
+        sigs = set()
         for m in c["mismatches"]:
-            if prop in replay_owners(m):
-                seg = script_segment(rep["script"], m["line"])
+            sig = "replay:%s:%s" % (m["op"], m["facet"])
+            if prop in replay_owners(m) and sig not in sigs:
+                sigs.add(sig)
+                mine.append(m)
+        segs = script_segments(rep["script"], [m["line"] for m in mine[:8]])
+        for m in mine[:8]:
+            if True:
+                seg = segs.get(m["line"], [])
                 fnd.add("replay:%s:%s" % (m["op"], m["facet"]),
                         "replay %s/%s line %d op %s facet %s: expected %s, real cache gave %s" %
                         (c["hasher"], c["keyform"], m["line"], m["op"], m["facet"],
